@@ -43,7 +43,10 @@ def upMask (nas : Nas) (sedn : Nat) (usetdn : List Row) (dnids : List Nat) :
   if m.count true < dnids.length then do
     let upids ← lookupD nas.upids sedn
     let ids := nodeIds usetdn
-    if upids.length ≠ ids.length then .error .index     -- boolean index of another length
+    if upids.length ≠ ids.length then
+      -- boolean index of another length: IndexError - pandas answers an EMPTY boolean indexer on a
+      -- non-empty Index with a ValueError of its own
+      (if upids.length = 0 then .error .value else .error .index)
     else
       let sel := ((ids.zip upids).filter fun p => (dnids.map Int.ofNat).contains p.2).map (·.1)
       let m2 := idMask usetdn sel
@@ -154,10 +157,12 @@ def upqStep (amask qmask pmask : Nat) (nas : Nas) (rec : Nat → Except Err (Lis
     if qup.any id then upqWrite nas sedn usetdn pv qup dnids maps
     else pure pv
 
-/-- `upqsetpv(nas, sedn)`; `fuel` bounds the recursion up the superelement tree (the real code
-recurses without a bound; on a tree the depth is below the number of `selist` rows). -/
+/-- `upqsetpv(nas, sedn)`; `fuel` bounds the recursion up the superelement tree.  The real code
+recurses without a bound: on a `selist` without cycles `selist.length + 1` levels are never used
+up (`upqsetpv_fuel_suffices`), on a cyclic one the real code ends in Python's `RecursionError`
+and the model, at every fuel, in `.error .recursion` (`upqsetpv_cycle_diverges`). -/
 def upqsetpv (amask qmask pmask : Nat) (nas : Nas) : Nat → Nat → Except Err (List Bool)
-  | 0, _ => .error .value
+  | 0, _ => .error .recursion
   | fuel + 1, sedn =>
       let ups := (nas.selist.filter fun r => r.2 = sedn).map (·.1)
       if ups = [] then .error .value
@@ -165,5 +170,80 @@ def upqsetpv (amask qmask pmask : Nat) (nas : Nas) : Nat → Nat → Except Err 
         let usetdn ← lookupD nas.uset sedn
         ups.foldlM (upqStep amask qmask pmask nas (upqsetpv amask qmask pmask nas fuel) sedn usetdn)
           (List.replicate usetdn.length false)
+
+/-! ### the connection of one `selist` row (used to state what `upqsetpv` computes) -/
+
+/-- the places of the downstream vector that receive, in this order, the flags of the a-set DOF of
+one upstream SE: the boundary rows (`upMask`: through `dnids`, or `upids`), re-ordered by `maps`
+when it has one entry per boundary row, unchanged when `maps` is empty or strictly increasing of
+another length (`upqWrite_eq`: this is the index vector of the assignment `pv[...] = qup`). -/
+def upqIdx (nas : Nas) (sedn : Nat) (usetdn : List Row) (dnids : List Nat) (maps : List (Int × Int)) :
+    Except Err (List Nat) := do
+  let m ← upMask nas sedn usetdn dnids
+  let upA := positions m
+  if maps = [] then .ok upA
+  else if maps.any (fun r => r.2 ≠ 1) then .error .value
+  else
+    let mp := maps.map (·.1)
+    if mp.length = upA.length then take upA mp
+    else if diffsPos mp then .ok upA
+    else .error .value
+
+/-- `upqIdx` for the `selist` row `r = (seup, sedn)`; `none` for a row that names an SE as its own
+downstream (skipped by the loop) and when a dictionary entry is missing or inconsistent -/
+def linkIdx (nas : Nas) (r : Nat × Nat) : Option (List Nat) :=
+  if r.1 = r.2 then none
+  else match lookupD nas.uset r.2, lookupD nas.dnids r.1, lookupD nas.maps r.1 with
+    | .ok usetdn, .ok dnids, .ok maps =>
+        (match upqIdx nas r.2 usetdn dnids maps with | .ok idx => some idx | .error _ => none)
+    | _, _, _ => none
+
+/-- the rows of a table that are in the a-set, in table order (`mksetpv(uset, "p", "a").nonzero()`
+when every row is in the p-set) -/
+def aRows (amask : Nat) (tbl : List Row) : List Nat := positions (tbl.map fun r => inSet r.2.2 amask)
+
+/-- the `k`-th a-set DOF of SE `c` can carry a flag at all: `c` flags it itself (`qupOwn`), or its
+row in the table of `c` is a place of a connection into `c` -/
+def canFlag (am qm pm : Nat) (nas : Nas) (c k : Nat) : Bool :=
+  match lookupD nas.uset c with
+  | .error _ => false
+  | .ok u =>
+      (match qupOwn am qm pm u with
+        | .ok q0 => q0[k]? == some true
+        | .error _ => false) ||
+      (match (aRows am u)[k]? with
+        | none => false
+        | some j => nas.selist.any fun r => r.2 == c &&
+            (match linkIdx nas r with | some idx => idx.contains j | none => false))
+
+/-- the connections of a dictionary are separate (`C18.Separate`, as a computation): the places of
+one connection are distinct and as many as the upstream SE has a-set DOF, and a place that two
+different upstream SEs of one SE have in common (a shared boundary grid) cannot carry a flag in
+either of them -/
+def separateB (am qm pm : Nat) (nas : Nas) : Bool :=
+  (nas.selist.all fun r =>
+    match linkIdx nas r with
+    | none => true
+    | some idx =>
+        decide idx.Nodup &&
+        (match lookupD nas.uset r.1 with
+          | .ok u => idx.length == (aRows am u).length
+          | .error _ => true)) &&
+  (nas.selist.all fun r => nas.selist.all fun r' =>
+    (r.2 != r'.2 || r.1 == r'.1) ||
+    (match linkIdx nas r, linkIdx nas r' with
+      | some idx, some idx' =>
+          (List.range idx.length).all fun k => (List.range idx'.length).all fun k' =>
+            idx[k]? != idx'[k']? || (!canFlag am qm pm nas r.1 k && !canFlag am qm pm nas r'.1 k')
+      | _, _ => true))
+
+/-! ### `_findse` -/
+
+/-- `_findse(nas, se)`: the first row of `selist` whose first column is `se` (`ValueError` when
+there is none) -/
+def findse (selist : List (Nat × Nat)) (se : Nat) : Except Err Nat :=
+  match positions (selist.map fun r => decide (r.1 = se)) with
+  | [] => .error .value
+  | r :: _ => .ok r
 
 end PyYetiVerif.Uset
